@@ -141,6 +141,10 @@ def family_core():
     # zero-uncertainty / zero-yield bins
     add("zero:shapesys-unc", [channel("ch", sample("sig", 2, normfactor()), sample("bkg", 2, shapesys("u", 2, zero=(1,))))])
     add("zero:staterror-unc", [channel("ch", sample("sig", 2, normfactor()), sample("bkg", 2, staterror("e", 2, zero=(0,))))])
+    add("zero:yield-staterror-shared", [channel("ch", sample("sig", 2, normfactor()), sample("b1", 2, staterror("st", 2), zero=(0,)),
+                                                 sample("b2", 2, staterror("st", 2), normsys("k")))])
+    add("zero:yield-histosys-normsys", [channel("ch", sample("sig", 2, normfactor(), zero=(1,)), sample("bkg", 3 - 1, histosys("h", 2), normsys("k"), zero=(0,)),
+                                                 sample("b2", 2, histosys("h", 2), staterror("st", 2)))])
     add("zero:yield-shapesys", [channel("ch", sample("sig", 2, normfactor()), sample("bkg", 2, shapesys("u", 2), zero=(0,)))])
     # POI elsewhere in the order / no POI
     add("poi:last", [channel("ch", sample("sig", 2, normfactor("zz")), sample("bkg", 2, normsys("a"), histosys("b", 2)))], poi="zz")
